@@ -163,13 +163,43 @@ def probe(obj, modname, depth=0):
     return dict(kind="value", value=canon(obj, modname))
 
 
-# names the import system / xreload itself put into a module; every other name — dunder or not — belongs to the source
+# names the import system / xreload itself / the warnings machinery (an ImportWarning about a relative import registers
+# itself in the importing module's globals) put into a module; every other name — dunder or not — belongs to the source
 SYSTEM_DUNDERS = frozenset(["__builtins__", "__cached__", "__file__", "__loader__", "__name__", "__package__", "__spec__",
-                            "__loadtime__", "__path__"])
+                            "__loadtime__", "__path__", "__warningregistry__"])
+
+
+def _is_submodule_attr(n, v):
+    """`pkg.sub` set by the import system when the submodule `pkg.sub` of a generated package is loaded"""
+    return (isinstance(v, types.ModuleType) and isinstance(getattr(v, "__name__", None), str)
+            and v.__name__.startswith("c16m") and "." in v.__name__ and v.__name__.rsplit(".", 1)[1] == n)
 
 
 def public(ns):
-    return sorted(n for n in ns if isinstance(n, str) and n not in SYSTEM_DUNDERS)
+    return sorted(n for n in ns if isinstance(n, str) and n not in SYSTEM_DUNDERS and not _is_submodule_attr(n, ns[n]))
+
+
+def submodule_attrs(ns):
+    return sorted(n for n in ns if isinstance(n, str) and _is_submodule_attr(n, ns[n]))
+
+
+def cells_equal(a, b):
+    """what `==` says about the non-updatable closure cell contents of two functions, pairwise; a comparison that raises
+    counts as "not equal" (that is how _livepatch__function reads it)"""
+    ca, cb = getattr(a, "__closure__", None) or (), getattr(b, "__closure__", None) or ()
+    for x, y in zip(ca, cb):
+        try:
+            u, v = x.cell_contents, y.cell_contents
+        except ValueError:
+            continue
+        if isinstance(u, _UPDATABLE):
+            continue
+        try:
+            if not (u is v or u == v):
+                return False
+        except Exception:
+            return False
+    return True
 
 
 def lazy_view(mod):
@@ -181,7 +211,7 @@ def lazy_view(mod):
     except Exception as e:
         v = "!" + type(e).__name__
     try:
-        d = sorted(x for x in dir(mod) if x not in SYSTEM_DUNDERS)
+        d = sorted(x for x in dir(mod) if x not in SYSTEM_DUNDERS and not _is_submodule_attr(x, mod.__dict__.get(x)))
     except Exception as e:
         d = "!" + type(e).__name__
     return [v, d]
@@ -423,6 +453,17 @@ def global_deps(obj, modname, depth=0, seen=None):
     return out
 
 
+def has_inst_hook(obj, modname):
+    """does the class (of the value), or an ancestor defined in the module, define __livepatch__ / __reload_update__ as a
+    plain instance method (D80: livepatch calls it for the *class* without self; inside _livepatch__bases the TypeError is
+    taken for a refused __bases__ assignment and the class is replaced instead of patched)"""
+    if obj is None:
+        return False
+    k = obj if isinstance(obj, type) else type(obj)
+    return any(isinstance(c.__dict__.get(h), types.FunctionType)
+               for c in k.__mro__ if getattr(c, "__module__", None) == modname for h in ("__livepatch__", "__reload_update__"))
+
+
 def inmod_base(obj, modname):
     k = obj if isinstance(obj, type) else type(obj)
     return any(b.__module__ == modname for b in k.__mro__[1:])
@@ -527,6 +568,10 @@ class Abstractor:
         self.keep = []
         self.unsupported = []
         self.dyn = {}     # model id -> ["f", type name] | ["h", model id of the class]: exact type when not the kind's default
+        # True when every __livepatch__ hook of the case is transparent by construction (gen_c16.HOOKS: the hook returns
+        # do_livepatch() / livepatch(..., heed_hook=False)): livepatch() with such a hook does exactly what it does without
+        # one, so the hook-less model applies and the hook is just another attribute.  Any other hook: K is skipped.
+        self.hooks_transparent = False
 
     @staticmethod
     def keystr(k):
@@ -570,14 +615,14 @@ class Abstractor:
         mn = self.modname
         if isinstance(o, types.FunctionType):
             cells = [self.ref(c) for c in o.__closure__ or ()]
-            if hasattr(o, "__livepatch__") or hasattr(o, "__reload_update__"):
+            if (hasattr(o, "__livepatch__") or hasattr(o, "__reload_update__")) and not self.hooks_transparent:
                 self.unsupported.append("hook")
             return dict(k="func", name=o.__name__, modn=o.__module__, code=self.token(o.__code__),
                         defaults=self.token(o.__defaults__), doc=self.token(o.__doc__), dict=self.ref(o.__dict__),
                         cells=cells, freevars=list(o.__code__.co_freevars))
         if self.is_modclass(o):
             self.exact_type(o, type)
-            if hasattr(o, "__livepatch__") or hasattr(o, "__reload_update__"):
+            if (hasattr(o, "__livepatch__") or hasattr(o, "__reload_update__")) and not self.hooks_transparent:
                 self.unsupported.append("hook")
             sl = o.__dict__.get("__slots__")
             if sl is not None and not (isinstance(sl, (tuple, list)) and all(isinstance(x, str) for x in sl)):
@@ -625,7 +670,7 @@ class Abstractor:
                             slots.append([sname, self.ref(getattr(o, sname))])
                         except AttributeError:
                             pass
-            if hasattr(type(o), "__livepatch__") or hasattr(type(o), "__reload_update__"):
+            if (hasattr(type(o), "__livepatch__") or hasattr(type(o), "__reload_update__")) and not self.hooks_transparent:
                 self.unsupported.append("hook")
             return dict(k="inst", cls=self.ref(type(o)), dict=self.ref(d) if type(d) is dict else None, slots=sorted(slots))
         try:
@@ -660,21 +705,71 @@ def _exc_name(e):
     return type(e).__name__
 
 
-def fresh_load(name, path):
-    """Import `path` as module `name` without leaving it in sys.modules."""
-    spec = importlib.util.spec_from_file_location(name, path)
+def fresh_load(name, path, pkg=False, after=None):
+    """Import `path` as module `name` without leaving it (or, for a package, any submodule it loads) in sys.modules.
+    `after(mod)` runs while the fresh module is still registered."""
+    spec = importlib.util.spec_from_file_location(name, path, submodule_search_locations=[os.path.dirname(path)] if pkg else None)
     mod = importlib.util.module_from_spec(spec)
     MISSING = object()
     saved = sys.modules.get(name, MISSING)
+    saved_sub = {k: sys.modules.pop(k) for k in list(sys.modules) if k.startswith(name + ".")}
     sys.modules[name] = mod
     try:
         spec.loader.exec_module(mod)
+        if after is not None:
+            after(mod)
     finally:
         if saved is MISSING:
             sys.modules.pop(name, None)
         else:
             sys.modules[name] = saved
+        for k in [k for k in sys.modules if k.startswith(name + ".")]:
+            sys.modules.pop(k, None)
+        sys.modules.update(saved_sub)
     return mod
+
+
+def lay_out(base, name, pkg):
+    """the path of module `name`'s own source below `base`; for a package the directory and its submodules are created"""
+    if not pkg:
+        return os.path.join(base, name + ".py")
+    pd = os.path.join(base, name)
+    os.makedirs(pd, exist_ok=True)
+    for sn, st in gen_c16.PKG_SUBMODULES.items():
+        _write(os.path.join(pd, sn + ".py"), st, 1_600_000_000)
+    return os.path.join(pd, "__init__.py")
+
+
+def late_import(name):
+    """a package must be able to load a submodule that has not been imported yet (needs sys.modules[name].__path__)"""
+    parent = sys.modules.get(name)
+    had = parent is not None and "late" in parent.__dict__
+    try:
+        return repr(importlib.import_module(name + ".late").val)
+    except BaseException as e:
+        return "!" + type(e).__name__
+    finally:
+        sys.modules.pop(name + ".late", None)
+        if parent is not None and not had:
+            parent.__dict__.pop("late", None)
+
+
+def would_reload_others(name):
+    """xreload() without arguments looks at every loaded module.  Is there one — other than the case's module — that it
+    would reload (source modified after the process started, e.g. a harness file edited during the run)?"""
+    import pyflyby._livepatch as LP
+    for n, mod in list(sys.modules.items()):
+        if n == name or n == "__main__":
+            continue
+        try:
+            fn = LP._get_module_py_file(mod)
+            if not fn or not fn.endswith(".py"):
+                continue
+            if not (getattr(mod, "__loadtime__", LP._PROCESS_START_TIME) > os.stat(fn).st_mtime):
+                return n
+        except Exception:
+            continue
+    return None
 
 
 def _write(path, text, bump):
@@ -745,7 +840,7 @@ def layout_sig(k, modname):
 class C16(Prop):
     id = "C16"
     driver = "C16"
-    lean_modules = ["Pfb.C16.Props"]
+    lean_modules = ["Pfb.C16.Props", "Pfb.C16.Obs"]
     theorems = [
         "Pfb.C16.lp_frame",
         "Pfb.C16.C16_rollback",
@@ -769,6 +864,18 @@ class C16(Prop):
         "Pfb.C16.D17_contrast_identity_kept",
         "Pfb.C16.D45_stale_cell",
         "Pfb.C16.D45_fixed",
+        "Pfb.C16.C16_obs_partial",
+        "Pfb.C16.lp_dict_obs",
+        "Pfb.C16.lp_func_obs",
+        "Pfb.C16.lp_dictAtoms",
+        "Pfb.C16.lp_flatFunc",
+        "Pfb.C16.lp_atomOld",
+        "Pfb.C16.lp_module_obs",
+        "Pfb.C16.obsEq_refl",
+        "Pfb.C16.D18_not_flat",
+        "Pfb.C16.D18_invisible_to_obsEq",
+        "Pfb.C16.witness_D17_captured_ref_not_obs",
+        "Pfb.C16.witness_D46_aliasing_needed",
     ]
     anchors = [
         ("lib/python/pyflyby/_livepatch.py", "livepatch"),
@@ -789,13 +896,19 @@ class C16(Prop):
     thorough_deadline_s = 600
     rule = ("(old, new) module version pairs from harness/gen_c16.py (functions, defaults, docs, function attributes, "
             "decorators, closure factories and instances, lambdas, classes with inheritance inside the module, slots, "
-            "plain/static/class methods, properties, module-level instances, data, aliases, containers), new = 1-3 edits "
+            "plain/static/class methods, properties, module-level instances (also slotted, with slots set in one version only), "
+            "data, aliases, containers, transparent __livepatch__/__reload_update__ hooks on functions, classes and the module, "
+            "closure cells holding a value whose == raises, renamed captured variables), the module a plain file or a package "
+            "with relative imports, named by object / name / path / *.pyc path / 'name.py' / in a list / not at all (xreload()) / "
+            "by an object that is no longer registered, new = 1-3 edits "
             "of old, optionally a preceding successful reload, x failure kind x statement index; non-trivial when the "
             "old version imports and xreload actually ran; distinct by (pre, old, new, fail)")
     trusted_base = ["CPython's function/class object model (what assigning __code__/__bases__ does to live callers)",
                     "the harness's abstraction of real object graphs to the model heap (harness/c16.py abstract_heap)"]
     assumptions = ["generated modules have no import-time side effects outside their own namespace",
-                   "no __livepatch__ hooks and no metaclasses in the generated modules (not modelled)"]
+                   "every generated __livepatch__ hook is transparent (returns do_livepatch() / livepatch(..., heed_hook=False)); "
+                   "the model has no hooks: K treats such a hook as an ordinary attribute, any other hook is outside K",
+                   "xreload() without arguments: importlib.reload of extension modules is stubbed out by the harness"]
 
     _root = None
 
@@ -833,6 +946,15 @@ class C16(Prop):
         (["class C:\n    def m(self):\n        return 1", "class C2:\n    X = C"], ["class C:\n    def m(self):\n        return 2", "class C2:\n    X = C"]),
         (["class C:\n    def f(self):\n        return 1", "C.X = C"], ["class C:\n    def f(self):\n        return 2", "C.X = C"]),
         (["d = {}", "d['x'] = d", "d['f'] = lambda: 1"], ["d = {}", "d['x'] = d", "d['f'] = lambda: 2"]),
+        # a slotted instance: slot set only before / only after / in both / in neither version
+        (["class S:\n    __slots__ = ('v', 'u', 'w', 'x')\n    def __init__(self, v=0):\n        self.v = v\n    def m(self):\n        return (self.v, getattr(self, 'u', None), getattr(self, 'w', None))", "s = S(1)", "s.u = 5"],
+         ["class S:\n    __slots__ = ('v', 'u', 'w', 'x')\n    def __init__(self, v=0):\n        self.v = v\n    def m(self):\n        return (self.v, getattr(self, 'u', None), getattr(self, 'w', None), 1)", "s = S(2)", "s.w = 6"]),
+        # CPython refuses the __bases__ assignment (instance layout changes): the class is replaced, nothing half patched
+        (["class D:\n    __slots__ = ('v',)\n    def __init__(self, v=0):\n        self.v = v", "class A(D):\n    def m(self):\n        return 1", "def user():\n    return A().m()"],
+         ["class D:\n    __slots__ = ('v',)\n    def __init__(self, v=0):\n        self.v = v", "class A:\n    def m(self):\n        return 2", "def user():\n    return A().m()"]),
+        # the captured variable of a closure is renamed: same closure length, other co_freevars
+        (["def mk(p):\n    def inner(x=1):\n        return x * p\n    return inner", "cl = mk(2)", "def user():\n    return cl(3)"],
+         ["def mk(r):\n    def inner(x=1):\n        return x * r + 1\n    return inner", "cl = mk(2)", "def user():\n    return cl(3)"]),
     ]
 
     def exhaustive_cases(self, tier, rng):
@@ -854,15 +976,16 @@ class C16(Prop):
         name = "c16m%d_%d" % (os.getpid(), _COUNTER[0])
         d = tempfile.mkdtemp(prefix="c16_", dir=self._root if self._root and os.path.isdir(self._root) else None)
         d = os.path.realpath(d)
-        path = os.path.join(d, name + ".py")
+        pkg = bool(case.get("pkg"))
+        path = lay_out(d, name, pkg)
         fdir = os.path.join(d, "fresh")
         os.mkdir(fdir)
         obs = dict(trivial=None)
         sys.path.insert(0, d)
-        for en, es in gen_c16.EXT_SOURCES.items():
-            with open(os.path.join(d, en + ".py"), "w") as f:
-                f.write(es)
         t0 = 1_700_000_000
+        for en, es in gen_c16.EXT_SOURCES.items():
+            # old mtime: an argument-less xreload() must not find the helper modules modified
+            _write(os.path.join(d, en + ".py"), es, t0 - 100)
         try:
             old_text = gen_c16.source(case["old"])
             new_text = gen_c16.source(case["new"], case.get("fail"))
@@ -940,11 +1063,12 @@ class C16(Prop):
             keys_before = {k: id(v) for k, v in md.items()}
             sysmod_before = sys.modules.get(name)
             # ---- does the new text execute on its own? ------------------------------
-            fpath = os.path.join(fdir, name + ".py")
+            fpath = lay_out(fdir, name, pkg)
             _write(fpath, new_text, None)
             fresh = None
+            late = {}
             try:
-                fresh = fresh_load(name, fpath)
+                fresh = fresh_load(name, fpath, pkg, after=(lambda fm: late.__setitem__("fresh", late_import(name))) if pkg else None)
                 obs["exec_fails"] = None
             except BaseException as e:
                 obs["exec_fails"] = _exc_name(e)
@@ -965,7 +1089,8 @@ class C16(Prop):
             # ---- abstraction for the model (K) ---------------------------------------
             import pyflyby._livepatch as LP
             ab = Abstractor(name)
-            kinfo = dict(module=ab.ref(m))
+            ab.hooks_transparent = case.get("hooks") == "transparent"
+            kinfo = dict(module=ab.ref(m), name=name)
             kinfo["pre"] = ab.heap(0)
             kinfo["dyn"] = ab.dyn_table()
             n_pre = len(ab.objs)
@@ -1009,18 +1134,36 @@ class C16(Prop):
                                 has_loadtime="__loadtime__" in md)
             obs["expected_reload"] = (not (L > M)) and not obs["guard"]["same"]
             obs["lazy_before"] = lazy_view(m)
+            obs["submods_before"] = submodule_attrs(md)
+            obs["submods_fresh"] = submodule_attrs(fresh.__dict__) if fresh is not None else None
             LP.livepatch = spy
             LP._LIVEPATCH_DISPATCH_TABLE[type] = cls_spy
-            arg = m if case.get("via", "module") == "module" else (name if case["via"] == "name" else path)
+            via = case.get("via", "module")
+            if via == "all" and would_reload_others(name):
+                via = "module"        # (a source file of the harness / of pyflyby was modified while the check runs)
+            obs["via"] = via
+            if case.get("unreg") and via == "module":
+                # the caller holds the module object, the registry no longer has it
+                sys.modules.pop(name, None)
+                sysmod_before = None
+                kinfo["sysmods"] = []
+                obs["unreg"] = True
+            arg = {"module": (m,), "name": (name,), "path": (path,), "list": ([m],), "all": (),
+                   "basename": (name + ".py",), "pyc": (path + "c",)}[via]
             raised = None
+            real_reload = LP.reload_module
+            # xreload() hands every loaded module without a *.py file (extension modules) to importlib.reload: outside
+            # the property, and not something to do to the process that runs the check
+            LP.reload_module = lambda mod: mod
             try:
-                pyflyby.xreload(arg)
+                pyflyby.xreload(*arg)
             except BaseException as e:
                 raised = _exc_name(e)
                 obs["raised_msg"] = str(e)[:120]
             finally:
                 LP.livepatch = real_lp
                 LP._LIVEPATCH_DISPATCH_TABLE[type] = real_cls
+                LP.reload_module = real_reload
             obs["raised"] = raised
             obs["lazy_post"] = lazy_view(m)
             obs["lazy_fresh"] = lazy_view(fresh) if fresh is not None else None
@@ -1031,7 +1174,23 @@ class C16(Prop):
             kinfo["sysmod_post"] = ab.ids.get(id(sm)) if sm is not None else None
             kinfo["unsupported"] = sorted(set(ab.unsupported))
             obs["k"] = kinfo
-            obs["sysmod_same"] = sys.modules.get(name) is sysmod_before and sysmod_before is m
+            if obs.get("unreg"):
+                # failure: the name must still be absent; success: xreload registers what it returns (the old module)
+                obs["sysmod_same"] = sys.modules.get(name) is (None if (raised is not None or obs["exec_fails"] is not None) else m)
+            else:
+                obs["sysmod_same"] = sys.modules.get(name) is sysmod_before and sysmod_before is m
+            obs["submods_post"] = submodule_attrs(md)
+            if pkg:
+                prev = sys.modules.get(name, None)
+                sys.modules[name] = m
+                try:
+                    obs["late_post"] = late_import(name)
+                finally:
+                    if prev is None:
+                        sys.modules.pop(name, None)
+                    else:
+                        sys.modules[name] = prev
+                obs["late_fresh"] = late.get("fresh")
             foreign_after = {n: (id(v.__code__) if isinstance(v, types.FunctionType) else sorted((k, id(x)) for k, x in v.__dict__.items()))
                              for n, v in foreign.items()}
             obs["foreign_modified"] = sorted(n for n in foreign if foreign_before[n] != foreign_after[n])
@@ -1042,9 +1201,10 @@ class C16(Prop):
                 obs["dict_same"] = {k: id(v) for k, v in md.items()} == keys_before
                 obs["box_same"] = all(a is b for a, b in zip(box, [md.get(n) for n in pubs]))
                 if not case.get("pre"):
-                    opath = os.path.join(fdir, "old_" + name + ".py")
+                    os.mkdir(os.path.join(fdir, "old"))
+                    opath = lay_out(os.path.join(fdir, "old"), name, pkg)
                     _write(opath, old_text, None)
-                    twin = fresh_load(name, opath)
+                    twin = fresh_load(name, opath, pkg)
                     twin_cap = {n: twin.__dict__[n] for n in public(twin.__dict__)}
                     obs["behaviour_after_failure"] = observe(md, name)
                     obs["behaviour_of_old_text"] = observe(twin.__dict__, name)
@@ -1074,6 +1234,7 @@ class C16(Prop):
                 fl["kwdefaults_changed"] = n in kwbad
                 fl["old_foreign_modified"] = n in obs.get("foreign_modified", [])
                 fl["slots_mixed"] = False
+                fl["inst_hook"] = bool(ismod and (has_inst_hook(fv, name) or has_inst_hook(old_ns.get(n), name)))
                 if ismod and not isinstance(fv, type):
                     sl = [k for k in type(fv).__mro__ if k.__dict__.get("__slots__")]
                     fl["slots_mixed"] = bool(sl) and (len(sl) > 1 or hasattr(fv, "__dict__"))
@@ -1101,7 +1262,8 @@ class C16(Prop):
                 changed = False
                 for n, ds in deps.items():
                     for dn in ds:
-                        for k in ("multi_paired", "cell_unpatchable", "kind_changed", "calls_foreign", "old_foreign_modified", "kwdefaults_changed"):
+                        for k in ("multi_paired", "cell_unpatchable", "kind_changed", "calls_foreign", "old_foreign_modified", "kwdefaults_changed",
+                                  "inst_hook"):
                             if flags[dn][k] and not flags[n][k]:
                                 flags[n][k] = True
                                 changed = True
@@ -1113,9 +1275,11 @@ class C16(Prop):
                     keep_names.append(n)
                     ident[n] = dict(imported=getattr(other, n) is md[n], thunk=thunks[n]() is md[n],
                                     boxed=box[pubs.index(n)] is md[n],
-                                    cells_same=old_shapes[n].get("cells") == new_shapes[n].get("cells"),
+                                    cells_same=(old_shapes[n].get("cells") == new_shapes[n].get("cells")
+                                                and cells_equal(getattr(other, n), fd[n])),
                                     bases_inmod=any(b[0] for b in new_shapes[n].get("bases", [])),
                                     cell_type_inmod=cell_type_inmod(getattr(other, n), name),
+                                    inst_hook=bool(isinstance(fd[n], type) and (has_inst_hook(fd[n], name) or has_inst_hook(getattr(other, n), name))),
                                     meta_shadowed=bool(isinstance(fd[n], type) and type(fd[n]).__module__ == name
                                                        and fd.get(type(fd[n]).__name__) is not type(fd[n])))
             obs["keep_names"] = keep_names
@@ -1138,6 +1302,7 @@ class C16(Prop):
                 raw_new_kind = type(inspect.getattr_static(fd[cn], a, None)).__name__
                 meth_ident[q] = dict(same=of is cf, cells_same=old_shapes[q].get("cells") == shape(nf, name).get("cells"),
                                      kind_same=raw_old_kind == raw_new_kind, cell_type_inmod=cell_type_inmod(of, name),
+                                     meta_shadowed=ident[cn]["meta_shadowed"], inst_hook=ident[cn]["inst_hook"],
                                      got=_call(v, name) if isinstance(v, types.MethodType) or raw_new_kind == "staticmethod" else None,
                                      want=_call(fv, name) if isinstance(v, types.MethodType) or raw_new_kind == "staticmethod" else None)
             obs["method_identity"] = meth_ident
@@ -1173,6 +1338,8 @@ class C16(Prop):
             except ValueError:
                 pass
             sys.modules.pop(name, None)
+            for k in [k for k in sys.modules if k.startswith(name + ".")]:
+                sys.modules.pop(k, None)
             for en in gen_c16.EXT_SOURCES:
                 sys.modules.pop(en, None)
             for k in [k for k in linecache.cache if k.startswith(d)]:
@@ -1228,6 +1395,19 @@ class C16(Prop):
         if obs.get("foreign_modified"):
             fails.append(dict(what="an object that belongs to another module was modified by the reload",
                               names=obs["foreign_modified"], **brief))
+        if case.get("pkg"):
+            # a package: submodule attributes (set by the import system, not by the source text) and the ability to load
+            # further submodules are part of what a fresh import gives
+            lost = sorted(set(obs.get("submods_before") or []) & set(obs.get("submods_fresh") or []) - set(obs.get("submods_post") or []))
+            if lost:
+                fails.append(dict(what="package lost the attribute of a loaded submodule that a fresh import has", names=lost, **brief))
+            extra = sorted(set(obs.get("submods_post") or []) - set(obs.get("submods_before") or []) - set(obs.get("submods_fresh") or []))
+            if extra:
+                fails.append(dict(what="package has a submodule attribute that neither the old module nor a fresh import has",
+                                  names=extra, **brief))
+            if obs.get("late_post") != obs.get("late_fresh"):
+                fails.append(dict(what="package cannot load a further submodule as a fresh import can", got=obs.get("late_post"),
+                                  want=obs.get("late_fresh"), **brief))
         # names
         if obs["names_post"] != obs["names_fresh"]:
             fails.append(dict(what="names differ from a fresh import", got=obs["names_post"], want=obs["names_fresh"], **brief))
@@ -1299,6 +1479,10 @@ class C16(Prop):
             return "unsupported: " + ",".join(k["unsupported"])
         if "__bases__" in (obs.get("raised_msg") or "") or obs.get("layout_changed") or k.get("bases_refused"):
             return "CPython layout check on __bases__ (not modelled)"
+        if "__livepatch__() missing" in (obs.get("raised_msg") or "") or "__reload_update__() missing" in (obs.get("raised_msg") or ""):
+            # D80: an instance-method hook found on the class is called without self; the model has no hooks (a hook that
+            # is not transparent is outside K, see Abstractor.hooks_transparent)
+            return "instance-method hook called on the class (D80, hooks are not modelled)"
         return None
 
     def model_requests(self, case, obs):
@@ -1306,7 +1490,7 @@ class C16(Prop):
             return []
         k = obs["k"]
         req = dict(op="xreload", heap=k["pre"], sysmods=k["sysmods"], objs=k.get("objs", []),
-                   name=k["sysmods"][0][0] if k["sysmods"] else "?", module=k["module"],
+                   name=k.get("name") or (k["sysmods"][0][0] if k["sysmods"] else "?"), module=k["module"],
                    compileOk=obs.get("exec_fails") != "SyntaxError",
                    mtime=dict(k="atom", ty="builtins.float", val=k["mtime"]), fuel=4000, fixes=detect_fixes(), dyn=k.get("dyn", []),
                    loadtime=obs["guard"]["loadtime_ns"], mtimeNs=obs["guard"]["mtime_ns"], same=obs["guard"]["same"])
@@ -1359,7 +1543,7 @@ class C16(Prop):
                 return "model returns object %r, impl returns the old module" % (res["ok"],)
         # registry
         sm = dict((a, b) for a, b in r.get("sysmods", []))
-        name = k["sysmods"][0][0] if k["sysmods"] else "?"
+        name = k.get("name") or (k["sysmods"][0][0] if k["sysmods"] else "?")
         if sm.get(name) != k["sysmod_post"]:
             return "sys.modules[name]: model %r impl %r" % (sm.get(name), k["sysmod_post"])
         if "err" in res and obs.get("exec_fails") is None:
@@ -1443,7 +1627,10 @@ class C16(Prop):
             inc("kept_identity_names_%s" % min(len(obs.get("keep_names", [])), 5))
         if case.get("pre"):
             inc("with_preceding_reload")
-        inc("via_" + case.get("via", "module"))
+        inc("via_" + (obs.get("via") or case.get("via", "module")))
+        for fl in ("unreg", "pkg", "hooks"):
+            if case.get(fl):
+                inc("with_" + fl)
         text = "\n".join(case["new"])
         for k, pat in (("class", "class "), ("inherit", "(A)"), ("closure", "mk("), ("deco", "@deco"), ("static", "@staticmethod"),
                        ("classmethod", "@classmethod"), ("property", "@property"), ("slots", "__slots__"), ("super", "super()")):
@@ -1548,6 +1735,19 @@ C16.families = {
     "slots_instance_setattr_typeerror": C16._fam_raise("setattr expected 3 arguments"),
     "class_dict_descriptor_not_writable": C16._fam_raise("attribute '__dict__' of 'type' objects is not writable"),
     "bases_assignment_layout": C16._fam_raise("__bases__ assignment"),
+    "instance_method_hook_called_on_class": (lambda case, f: (f.get("what", "").startswith("xreload raised although")
+                                                              and f.get("err") == "TypeError"
+                                                              and ("__livepatch__() missing 1 required positional argument: 'self'" in (f.get("msg") or "")
+                                                                   or "__reload_update__() missing 1 required positional argument: 'self'" in (f.get("msg") or "")))
+                                             # the same TypeError raised below _livepatch__bases is taken for a refused __bases__
+                                             # assignment: the class is replaced instead of patched
+                                             or (f.get("what", "").startswith(("captured reference lost identity", "captured method lost identity"))
+                                                 and bool(f.get("identity", {}).get("inst_hook")))
+                                             or (f.get("what", "").startswith(("namespace differs", "class relation differs", "aliasing among",
+                                                                               "captured reference does not behave", "captured method does not behave"))
+                                                 and (bool((f.get("flags") or {}).get("inst_hook")) or bool((f.get("flags_b") or {}).get("inst_hook"))))),
+    "package_submodule_attribute_lost": (lambda case, f: bool(case.get("pkg"))
+                                         and f.get("what", "").startswith("package lost the attribute of a loaded submodule")),
 }
 
 PROP = C16()
